@@ -129,16 +129,23 @@ fn any_match(globs: &[String], path: &str) -> bool {
     globs.iter().any(|g| glob_match(g, path))
 }
 
+/// Suffixes blockwatch registers that are more than a plain last extension.
+pub const COMPOUND_SUFFIXES: &[&str] = &["go.mod", "go.sum", "go.work", "d.ts"];
+
+/// Whether a file name maps to a grammar: every dot-suffix of the base name is tried (so
+/// `x.go.mod` and `a.d.ts` are found), then the whole name (`go.mod`); `-E ext=known` adds
+/// `ext`. `legacy.mod`, `notes.sum` map to nothing and must be skipped silently.
 fn known_extension(path: &str, extra: &[(String, String)]) -> bool {
     let name = path.rsplit('/').next().unwrap_or(path);
-    let Some(dot) = name.rfind('.') else {
-        return false;
+    let known = |s: &str| {
+        KNOWN_EXTENSIONS.contains(&s) || COMPOUND_SUFFIXES.contains(&s) || extra.iter().any(|(k, _)| k == s)
     };
-    let ext = &name[dot + 1..];
-    if extra.iter().any(|(k, _)| k == ext) {
-        return true;
+    for (i, _) in name.match_indices('.') {
+        if known(&name[i + 1..]) {
+            return true;
+        }
     }
-    KNOWN_EXTENSIONS.contains(&ext)
+    known(name)
 }
 
 // ---------------------------------------------------------------------------------------------
